@@ -463,7 +463,7 @@ def matrix_cells(thorough):
     return cells
 
 
-def make_generator(kind, rng, tmpdir, ice, light=False, ant_pos=()):
+def make_generator(kind, rng, tmpdir, ice, light=False, ant_pos=(), bounds=()):
     """tiny generators; returns (generator, description)"""
     from pyrex.particle import Particle, Event
     from pyrex.generation import ListGenerator, CylindricalGenerator, RectangularGenerator, FileGenerator
@@ -476,7 +476,7 @@ def make_generator(kind, rng, tmpdir, ice, light=False, ant_pos=()):
         return CylindricalGenerator(dr=300, dz=600, energy=energy, shadow=False), {"np_seed": seed, "energy": energy}
     if kind == "Rectangular":
         return RectangularGenerator(dx=400, dy=400, dz=600, energy=energy, shadow=False), {"np_seed": seed, "energy": energy}
-    weigher = CylindricalGenerator(dr=5000, dz=1000, energy=1e12, shadow=False)
+    weigher = CylindricalGenerator(dr=5000, dz=3200, energy=1e12, shadow=False)
 
     def rand_event():
         parts = []
@@ -487,6 +487,9 @@ def make_generator(kind, rng, tmpdir, ice, light=False, ant_pos=()):
             if r < 0.2:
                 # far and shallow: in the shadow zone of the depth-dependent ice models
                 vertex = [rng.uniform(1500, 3000), rng.uniform(-100, 100), -rng.uniform(5, 40)]
+            elif r < 0.35 and bounds:
+                # exactly at the bottom of the ice (the closed valid range includes it)
+                vertex = [rng.uniform(-250, 250), rng.uniform(-250, 250), bounds[0]]
             elif r < 0.5 and ant_pos:
                 # exactly below / above an antenna (same x, y): a vertex on the axis of a string
                 ax, ay, az = rng.choice(list(ant_pos))
@@ -574,22 +577,41 @@ def snell_count(ice, p0, p1):
 
 def layered_count(ice, p0, p1):
     """Number of distinct rays with at most one reflection between two points of a two-layer stack of
-    uniform ice (interface at zb, surface at 0, nothing reflecting below): every topology (sequence of
-    straight segments) has exactly one Snell solution for rho > 0, so the rays are counted by
-    enumerating topologies; a reflection at the interface right at an endpoint is the direct ray."""
+    uniform ice (interface at zb, reflecting surface at 0, nothing reflecting below): every topology
+    (sequence of straight segments) has exactly one Snell solution for rho > 0, so the rays are counted by
+    enumerating topologies; a reflection at a boundary on which an endpoint lies is the direct ray."""
+    if len(ice.layers) != 2:
+        return None
     zb = float(ice.layers[0].valid_range[0])
+    zmin = float(ice.layers[-1].valid_range[0])
     z0, z1 = float(p0[2]), float(p1[2])
     rho = float(np.hypot(p1[0] - p0[0], p1[1] - p0[1]))
-    if rho == 0 or not (z0 < 0 and z1 < 0) or len(ice.layers) != 2:
+    if rho == 0 or not (zmin <= z0 <= 0 and zmin <= z1 <= 0) or (z0 == z1 and z0 in (zb, 0.0)):
         return None
-    on0, on1 = z0 == zb, z1 == zb
-    if on0 and on1:
-        return None
-    if on0 or on1:
-        return 2                      # direct + reflected off the surface
-    if (z0 < zb) != (z1 < zb):
-        return 2                      # direct (transmitted) + reflected off the surface
-    return 3                          # direct, reflected off the interface, reflected off the surface
+    n = 1                                             # direct (transmitted through the interface if needed)
+    if z0 < 0 and z1 < 0:
+        n += 1                                        # reflected off the surface
+    if (z0 < zb and z1 < zb) or (z0 > zb and z1 > zb):
+        n += 1                                        # reflected off the interface, from below / from above
+    return n
+
+
+def uniform_count(ice, tracer, p0, p1):
+    """Number of rays of the straight-line tracer in uniform ice: the direct line exists for endpoints in the
+    CLOSED valid range; r reflections (1..max_reflections) starting upward / downward exist when the
+    boundaries involved reflect (index_above / index_below given)."""
+    zmin, zmax = float(ice.valid_range[0]), float(ice.valid_range[1])
+    if not (zmin <= float(p0[2]) <= zmax and zmin <= float(p1[2]) <= zmax):
+        return 0
+    n = 1
+    above, below = ice._index_above is not None, ice._index_below is not None
+    for r in range(1, int(getattr(tracer, "max_reflections", 0)) + 1):
+        for first_up in (True, False):
+            uses_above = first_up if r == 1 else True
+            uses_below = (not first_up) if r == 1 else True
+            if (above or not uses_above) and (below or not uses_below):
+                n += 1
+    return n
 
 
 def run_cell(cell, seed, tmpdir, case=None):
@@ -616,7 +638,15 @@ def run_cell(cell, seed, tmpdir, case=None):
         if tn == "Layered" and rng.random() < 0.6:
             # an antenna exactly on the boundary between the two layers
             ant_pos[1] = (40, 10, float(ice.layers[0].valid_range[0]))
-        gen0, gd = make_generator(gk, rng, tmpdir, ice, light, ant_pos)
+        bounds = ()
+        if tn == "Uniform":
+            bounds = (float(ice.valid_range[0]),)
+        elif tn == "Layered":
+            bounds = (float(ice.layers[-1].valid_range[0]),)
+        if bounds and rng.random() < 0.5:
+            # an antenna exactly at the surface (legal: only z > 0 is rejected)
+            ant_pos[0] = (0, 0, 0.0)
+        gen0, gd = make_generator(gk, rng, tmpdir, ice, light, ant_pos, bounds)
 
         class GenWrap:
             """remembers the last event so that a component failure can be reproduced outside the kernel"""
@@ -721,12 +751,16 @@ def run_cell(cell, seed, tmpdir, case=None):
                         want = snell_count(ice, p.vertex, a.position)
                     elif tn == "Layered":
                         want = layered_count(ice, p.vertex, a.position)
+                    elif tn == "Uniform":
+                        want = uniform_count(ice, tr, p.vertex, a.position)
+                    if float(a.position[2]) == 0.0 or any(float(p.vertex[2]) == float(b) for b in bounds):
+                        stats["on_bound"] = stats.get("on_bound", 0) + 1
                     if want is not None:
                         stats["count_oracle"] = stats.get("count_oracle", 0) + 1
                         if np.hypot(*(np.array(p.vertex[:2], dtype=float) - a.position[:2])) == 0:
                             stats["vertical"] = stats.get("vertical", 0) + 1
                         if want != len(sols) and not bad:
-                            bad = "%s: the tracer lists %d ray solutions, the independent Snell count is %d" % (geo, len(sols), want)
+                            bad = "%s: the tracer lists %d ray solutions, the independent ray count is %d" % (geo, len(sols), want)
                     if bad:
                         break
                 if bad:
@@ -781,7 +815,7 @@ def run_cell(cell, seed, tmpdir, case=None):
                             raise StopIteration
         except StopIteration:
             pass
-        return stats, ("real components %s: EventKernel.event raised %s: %s" % (desc, type(e).__name__, str(e)[:200]), desc)
+        return stats, ("real components %s: running the cell (generator construction or EventKernel.event) raised %s: %s" % (desc, type(e).__name__, str(e)[:200]), desc)
     return stats, None
 
 
